@@ -60,8 +60,9 @@ def well_formed(model):
         if not 0 <= i < nt:
           pr.append(f'sg{si} op {oi}: input tensor index {i} out of range')
           continue
-        if i in available or has_data(model, sg.tensors[i]):
-          continue
+        if i in available or has_data(model, sg.tensors[i]) or getattr(
+            sg.tensors[i], 'isVariable', False):
+          continue  # (variable tensors hold state, nobody produces them)
         pr.append(f'sg{si} op {oi}: operand {tname(sg.tensors[i])!r} is '
                   'neither a graph input, a constant, nor produced by an '
                   'earlier operator')
